@@ -49,6 +49,8 @@ type Obj struct {
 	// closure
 	Fn   *ssa.Function
 	Stub *Stub
+	// Tracked: program memory subject to the happens-before monitor
+	Tracked bool
 }
 
 // Stub is an engine-implemented function value (e.g. the body of job k).
@@ -191,6 +193,8 @@ type Engine struct {
 	NoLiveness     bool
 	DebugPaths     bool
 	MissingBody    func(fn *ssa.Function) Intrinsic
+	Race           *RaceMon
+	RaceSites      map[string]bool
 	MaxStack       int
 	StackCuts      int
 	pathsRun       int
@@ -255,7 +259,8 @@ func NewEngine(P *Program) *Engine {
 		stubObj: map[string]int{}, typeByID: map[uint64]types.Type{}, nextType: 1,
 		strID: map[string]uint64{"": 0}, strByID: map[uint64]string{0: ""},
 		pools: map[string]*Pool{}, Intrinsics: map[string]Intrinsic{}, Flags: map[string]int{},
-		Encoded: map[string]bool{}, MaxFuel: 20000, StubHandlers: map[string]*StubHandler{}, InitPkgs: map[string]bool{}, FaultKinds: map[string]bool{},
+		RaceSites: map[string]bool{},
+		Encoded:   map[string]bool{}, MaxFuel: 20000, StubHandlers: map[string]*StubHandler{}, InitPkgs: map[string]bool{}, FaultKinds: map[string]bool{},
 	}
 	return e
 }
@@ -401,6 +406,7 @@ func (e *Engine) LayoutKinds(T types.Type) []bool {
 // SetObjType records the element type of an object and marks integer cells.
 func (e *Engine) SetObjType(o *Obj, T types.Type) {
 	o.Typ = T
+	o.Tracked = true
 	k := e.LayoutKinds(T)
 	if len(k) == 0 {
 		return
@@ -509,6 +515,12 @@ func (e *Engine) LoadVal(p *Path, ptr *Term, lay []int) (Value, *Term) {
 		for i := range lay {
 			cur[i] = p.Load(e, a+i)
 		}
+		if e.Race != nil {
+			c := e.B.Eq(ptr, e.B.BV(64, uint64(a)))
+			for i := range lay {
+				e.Race.Read(p, a+i, c)
+			}
+		}
 		if first {
 			val = cur
 			first = false
@@ -535,6 +547,14 @@ func (e *Engine) StoreVal(p *Path, ptr *Term, val Value) *Term {
 	for _, a := range addrs {
 		if e.layFits(a, lay) {
 			fit = append(fit, a)
+		}
+	}
+	if e.Race != nil {
+		for _, a := range fit {
+			c := e.B.Eq(ptr, e.B.BV(64, uint64(a)))
+			for i := range val {
+				e.Race.Write(p, a+i, c)
+			}
 		}
 	}
 	for _, a := range fit {
@@ -1352,10 +1372,27 @@ func (e *Engine) forkFault(p *Path, cond *Term, what string) {
 			e.Schedule(q)
 		}
 	} else {
-		e.RaiseFlag(p, "fault", cond)
+		e.cutWithFlag(p, cond, "fault")
 		e.FaultKinds[what+" in "+p.Cur.top().Fn.String()] = true
 	}
 	p.Guard = e.B.And(p.Guard, e.B.Not(cond))
+}
+
+// cutWithFlag ends the exploration of the part of path p on which cond holds:
+// a forked path carrying the raised sticky flag terminates immediately (its
+// process counts as exited), so that the flag is visible under exactly that
+// guard when states are merged.
+func (e *Engine) cutWithFlag(p *Path, cond *Term, flag string) {
+	g := e.B.And(p.Guard, cond)
+	if g.IsFalse() {
+		return
+	}
+	q := p.fork(g)
+	q.Store(e, e.Flag(flag), e.B.True)
+	q.Cur.Frames = nil
+	q.Cur.Pan = nil
+	q.Cut = true
+	e.Schedule(q)
 }
 
 // stepDefers advances defer processing of the top frame (Mode 1 or 2).
@@ -1653,7 +1690,7 @@ func (e *Engine) step(p *Path, instr ssa.Instruction) bool {
 		if e.PoolBound != nil {
 			bound = e.PoolBound(fr.Fn, in)
 		}
-		ptr := e.allocPool(p, e.siteKey(p, in, "closure"), lay, ObjClosure, "closure:"+fn.String(), bound, func(o *Obj) { o.Fn = fn })
+		ptr := e.allocPool(p, e.siteKey(p, in, "closure"), lay, ObjClosure, "closure:"+fn.String(), bound, func(o *Obj) { o.Fn = fn; o.Tracked = true })
 		var flat Value
 		flat = append(flat, B.BV(64, 0))
 		for _, bv := range in.Bindings {
@@ -2036,7 +2073,7 @@ func (e *Engine) builtinAppend(p *Path, fr *Frame, in *ssa.Call, args []Value) b
 		if lim := e.AppendBound(fr.Fn); lim > 0 {
 			tooLong := B.Not(B.Ult(s[1], B.BV(64, uint64(lim))))
 			if !tooLong.IsFalse() {
-				e.RaiseFlag(p, "unwind", tooLong)
+				e.cutWithFlag(p, tooLong, "unwind")
 				p.Guard = B.And(p.Guard, B.Not(tooLong))
 				if p.Guard.IsFalse() {
 					return true
@@ -2290,6 +2327,9 @@ func (e *Engine) dispatchCall(p *Path, cc *ssa.CallCommon, fnv Value, args []Val
 				v := make(Value, n)
 				for k := 0; k < n; k++ {
 					v[k] = q.Load(e, o.Base+off+k)
+					if e.Race != nil {
+						e.Race.Read(q, o.Base+off+k, e.B.True)
+					}
 				}
 				off += n
 				bind = append(bind, v)
@@ -2330,7 +2370,12 @@ func (e *Engine) builtin(p *Path, bi *ssa.Builtin, cc *ssa.CallCommon, args []Va
 		case *types.Map:
 			fin(Value{e.mapLen(p, args[0][0])})
 		case *types.Chan:
-			unsupported("len(chan)")
+			// number of buffered elements (read at the current point of the segment)
+			res := B.BV(64, 0)
+			for _, o := range e.chanObjs(args[0][0]) {
+				res = B.Ite(B.Eq(args[0][0], B.BV(64, uint64(o.Base))), B.Zext(e.chanCount(p, o), 64), res)
+			}
+			fin(Value{res})
 		default:
 			unsupported("len of %s", cc.Args[0].Type())
 		}
